@@ -54,7 +54,12 @@ fn format_field(name: &str, value: &str) -> String {
         | "Enhances"
         | "Pre-Depends"
         | "Breaks" => {
-            let relations: Relations = value.parse().unwrap();
+            // Substitution variables are common in these fields; leave a value that does
+            // not parse as it is rather than panicking
+            let (relations, errors) = Relations::parse_relaxed(value, true);
+            if !errors.is_empty() {
+                return value.to_string();
+            }
             let relations = relations.wrap_and_sort();
             relations.to_string()
         }
